@@ -259,3 +259,5 @@ def replay(ctx, payload):
 
 
 LEVEL_NOTE = "; ".join(TRUSTED) + '. NEW (T1b): the four predicates are translated from the current source and the whole algebra (symmetry, intersection size, abut ⇔ gap 0, trichotomy) is proved for the translation (Properties/C19Source.lean)'
+
+LEVEL_NOTE = LEVEL_NOTE + ' NEW: `qc_report_spec`, `qc_never_changes_output`, `qc_reports_of_run` (Properties/C19Cli.lean) over the CLI model; tie: the STDERR report text of `asm-format --qc-overlaps` compared with `reportOverlapsText`'
